@@ -2,7 +2,7 @@
    serialisation of exactly that member, and the tagged envelope is the serialisation of that map (C01: the digests are
    over the members "as they appear in the envelope"). *)
 Require Import Coq.Strings.String.
-From Verif Require Import Base.Prim Base.PrimFacts Base.Str Cbor.Codec Suit.Py Suit.PyFacts Suit.Ty Suit.Interp Suit.Mono Suit.Digest.
+From Verif Require Import Base.Prim Base.PrimFacts Base.Str Cbor.Codec Suit.Py Suit.PyFacts Suit.Ty Suit.Interp Suit.Mono Suit.Digest Suit.Typed Suit.TypedObj.
 Open Scope Z_scope.
 
 Lemma as_pyint_cint i : as_pyint (cint i) = Some i.
@@ -241,6 +241,7 @@ Section Bytes.
   Hypothesis Hroot : lookup root env = Some (TTag n name (TRef envn)).
   Hypothesis Henv : lookup envn env = Some (TKeyValue em emb).
   Hypothesis Hids : NoDup (map key_id em).
+  Hypothesis Hwfenv : env_wf env = true.
   Hypothesis Hsteps : steps_prepare = [1; 2].
   Hypothesis Hnd : NoDup severable_ids.
   Hypothesis Hsev : forall sid, In sid severable_ids -> sid <> 2 /\ sid <> 3.
@@ -251,16 +252,19 @@ Section Bytes.
       to_cbor env fuel (TRef root) (VTagged (VKV ents)) = Ok out
       /\ kv_get ents ai = Some (VSeq (VUnion j (VSeq [VRaw alg; VRaw (CBytes h)]) :: blocks))
       /\ hash_of hash_names H alg mb = Ok h
-      /\ (NoDup (map fst ents) -> (forall f, payloads_text (to_cbor env f) em ents) ->
+      /\ ((forall f, payloads_text (to_cbor env f) em ents) ->
           exists c data cm,
             dec mb = Ok c /\ dict_get data (cint 3) = Some c /\ dec (ser (CMap data)) = Ok cm /\ out = ser (CTag n cm)).
   Proof.
     intros Hc.
     destruct (create_digests env hash_names H uuid5 fs json_loads json_dumps severable_ids steps_prepare steps_processed steps_digest_ext
                 Hsteps Hnd Hsev fuel o out Hc)
-      as (ents & em' & mm & ai & ae & mi & me & ments & Hout & Hem & Hai & Hmi & Hgm & Hmm & (j & a & blocks & alg & mb & h & Hga & _ & Hmb & Hh) & _).
+      as (ents & em' & mm & ai & ae & mi & me & ments & Hout & Hem & Hai & Hmi & Hgm & Hmm & (j & a & blocks & alg & mb & h & Hga & _ & Hmb & Hh) & _ & (ents0 & Hfo & Hnd0)).
     exists ents, ai, j, alg, h, blocks, mb. split; [exact Hout|]. split; [exact Hga|]. split; [exact Hh|].
-    intros Hndents Hpt.
+    intros Hpt.
+    assert (Hndents : NoDup (map fst ents)).
+    { apply Hnd0. exact (from_obj_envelope_nodup env hash_names H uuid5 fs json_loads json_dumps severable_ids steps_processed steps_digest_ext
+                           root n name envn em emb fuel o ents0 Hwfenv Hroot Henv Hfo). }
     assert (Eem : em' = em).
     { unfold envelope_map in Hem. fold root in Hem. rewrite Hroot in Hem. unfold map_of in Hem. rewrite Henv in Hem. injection Hem as <-. reflexivity. }
     subst em'. destruct (find_idx_nth' _ _ _ _ Hmi) as (Hnth & Hid).
@@ -282,19 +286,22 @@ Section Bytes.
            find_idx (fun x => key_id x =? sid) em O = Some (ei, ee) -> kv_get ents ei = Some ev -> sid <> -1 -> sid <> -2 ->
            exists j alg data h,
              dv = VUnion j (VSeq [VRaw alg; VRaw (CBytes h)]) /\ hash_of hash_names H alg data = Ok h
-             /\ (NoDup (map fst ents) -> (forall f, payloads_text (to_cbor env f) em ents) ->
+             /\ ((forall f, payloads_text (to_cbor env f) em ents) ->
                  exists c dmap cm, dec data = Ok c /\ dict_get dmap (cint sid) = Some c /\ dec (ser (CMap dmap)) = Ok cm /\ out = ser (CTag n cm)).
   Proof.
     intros Hc.
     destruct (create_digests env hash_names H uuid5 fs json_loads json_dumps severable_ids steps_prepare steps_processed steps_digest_ext
                 Hsteps Hnd Hsev fuel o out Hc)
-      as (ents & em' & mm & ai & ae & mi & me & ments & Hout & Hem & Hai & Hmi & Hgm & Hmm & _ & Hsevs).
+      as (ents & em' & mm & ai & ae & mi & me & ments & Hout & Hem & Hai & Hmi & Hgm & Hmm & _ & Hsevs & (ents0 & Hfo & Hnd0)).
+    assert (Hndents : NoDup (map fst ents)).
+    { apply Hnd0. exact (from_obj_envelope_nodup env hash_names H uuid5 fs json_loads json_dumps severable_ids steps_processed steps_digest_ext
+                           root n name envn em emb fuel o ents0 Hwfenv Hroot Henv Hfo). }
     assert (Eem : em' = em).
     { unfold envelope_map in Hem. fold root in Hem. rewrite Hroot in Hem. unfold map_of in Hem. rewrite Henv in Hem. injection Hem as <-. reflexivity. }
     subst em'. exists ents, mm, mi, me, ments. split; [exact Hout|]. split; [exact Hmi|]. split; [exact Hgm|]. split; [exact Hmm|].
     intros sid si se ai' dv at_ ei ee ev Hin Hsi Hgs Hat Hisd Hei Hev Hn1 Hn2.
     destruct (Hsevs sid si se ai' dv at_ ei ee ev Hin Hsi Hgs Hat Hisd Hei Hev) as (j & alg & data & h & -> & Hdata & Hh).
-    exists j, alg, data, h. split; [reflexivity|]. split; [exact Hh|]. intros Hndents Hpt.
+    exists j, alg, data, h. split; [reflexivity|]. split; [exact Hh|]. intros Hpt.
     destruct (find_idx_nth' _ _ _ _ Hei) as (Hnth & Hid).
     destruct (envelope_member_embedded env root envn name n em emb Hroot Henv Hids fuel ents out ei ev ee Hout Hndents Hpt
                 (kv_get_in _ _ _ Hev) Hnth ltac:(lia) ltac:(lia)) as (bb & c & dmap & cm & Hbb & Hc' & Hg & Hcm & Heq).
